@@ -48,36 +48,40 @@ prop(
         "few integers of shadow state (sent-but-not-received values, live-sender count, 'receiver parked on waker A/B', pending "
         "notifications) and counting wakers built with alloc::task::Wake: (a) oneshot: the value is delivered exactly once and "
         "unchanged, Ready(Err) iff the sender was dropped without sending, Pending iff the sender is alive and nothing was sent; "
-        "(b) mpsc: a poll is Ready(Some) iff more elements were sent than received (each exactly once, also after the senders "
-        "are gone), never Pending while an element is queued, Ready(None) only if nothing is queued and no sender is left; FIFO "
+        "(b) mpsc: a poll is Ready(Some) iff more elements were sent than received (each exactly once; elements queued before the "
+        "last sender drop are delivered first), Pending iff the queue is empty and a sender is alive, Ready(None) iff the queue is "
+        "empty and every sender clone is dropped (sender_count bookkeeping over clone/drop); FIFO "
         "order of three distinguishable u8 values on one fixed operation sequence; (c) notification: a poll after >= 1 "
         "unconsumed notify is Ready(Ok) (n notifies before a poll may coalesce into between 1 and n wake-ups), never Ready(Ok) "
         "without a notify, Ready(Err) iff nothing is pending and every sender clone is dropped (sender_count bookkeeping over "
         "clone/drop); (d) all three: a send / notify / drop of the last sender while the receiver is parked increases the wake "
         "counter of the waker passed to the most recent Pending poll (never Pending without a registered waker), and sender "
-        "operations after the receiver is gone do not panic. The mpsc obligations about the state 'every sender dropped and queue "
-        "empty' are a recorded genuine finding (KF-C34-1: no disconnection transition exists): the __known harness is restricted "
-        "to exactly that trigger and fails as recorded, the __rest harness assumes its negation and passes."),
-    bounds="quick: oneshot k = 4 operations with 2 wakers; notification k = 4, <= 2 sender clones, 1 waker; mpsc k = 4, <= 2 sender "
-           "clones, 1 waker, element type (); mpsc FIFO: one 7-operation sequence with 3 symbolic u8 values; KF-C34-1 trigger after "
-           "any 2-operation prefix. thorough: oneshot k = 5 (2 wakers) and k = 6 (1 waker); notification k = 4 (2 wakers) and k = 5 "
-           "(3 sender slots); mpsc k = 4 (2 wakers) and k = 5 (3 sender slots); KF-C34-1 trigger after any 3-operation prefix. "
+        "operations after the receiver is gone do not panic. A dedicated harness drops every sender on an empty queue after an "
+        "arbitrary prefix (the receiver, parked or not, must be woken and poll Ready(None)): this is the scenario in which these "
+        "checks found that the mpsc channel had no disconnection transition (KF-C34-1); it was repaired by fix commit dfad154 and "
+        "all obligations are now asserted without exception."),
+    bounds="quick: oneshot k = 4 operations with 2 wakers; notification k = 4, <= 2 sender clones, 1 waker; mpsc k = 3, <= 2 sender "
+           "clones, 1 waker, element type (); mpsc FIFO: one 7-operation sequence with 3 symbolic u8 values; last-sender drop after "
+           "any 1-operation prefix. thorough: oneshot k = 5 (2 wakers) and k = 6 (1 waker); notification k = 4 (2 wakers) and k = 5 "
+           "(3 sender slots); mpsc k = 4 (1 and 2 wakers) and k = 5 (3 sender slots); last-sender drop after any 2- and 3-operation prefix. "
            "1 receiver everywhere.",
     outside="schedules longer than the stated k; more than 3 sender clones; the soundness of critical_section itself and true "
             "parallel execution inside a critical section (trusted base: acquire/release are stubbed by no-ops); the two critical "
-            "sections of OneshotSender::send(self) (store+wake, then Drop of self) and the two steps of NotificationSender::clone are "
-            "executed back to back; mpsc with a non-zero-sized element type under a symbolic schedule (measured: > 12 GB for 3 steps "
+            "sections of OneshotSender::send(self) (store+wake, then Drop of self) and the two steps of NotificationSender::clone / MpscSender::clone "
+            "(count += 1, then Arc clone) are executed back to back; mpsc with a non-zero-sized element type under a symbolic schedule (measured: > 12 GB for 3 steps "
             "and also for an 81-path tree of {send, poll}^4, because CBMC explores VecDeque::grow with symbolic-size copies at every "
             "send) - value identity and FIFO order are therefore checked on one operation sequence only and otherwise rest on "
             "VecDeque::push_back/pop_front of the standard library; destruction of the shared channel state (Arc::drop_slow, "
             "deallocation: AtomicUsize::fetch_sub is stubbed to never report the last reference); the executor that re-polls a woken "
-            "task (C42, not applicable); KF-C34-1 itself (reported, not claimed).",
-    level_text="Bounded symbolic model checking (Kani 0.68 / CBMC 6.11) of the real channel code over ALL schedules of k <= 4 (quick) / "
+            "task (C42, not applicable); what MpscSender::send returns after the receiver was dropped (it still queues and returns Ok: "
+            "the statement only speaks about the sending side being dropped).",
+    level_text="Bounded symbolic model checking (Kani 0.68 / CBMC 6.11) of the real channel code over ALL schedules of k <= 3..4 (quick) / "
                "k <= 6 (thorough) atomic operations; reported as level 'other' (bounded).",
     level_note="trusted: Kani/CBMC; the harness oracles in harness/incrate/c34_channels.rs; three stubs in support_cs.rs "
                "(critical_section acquire/release = no-ops; AtomicUsize::fetch_sub never reports the last Arc reference; for the FIFO "
-               "harness alloc::raw_vec::min_non_zero_cap panics = buffer growth asserted unreachable). One known finding (KF-C34-1, "
-               "mpsc never reports disconnection) is printed as KNOWN-FINDING on every run; nothing else is suppressed.",
+               "harness alloc::raw_vec::min_non_zero_cap panics = buffer growth asserted unreachable). The defect found by this check "
+               "(KF-C34-1: mpsc never reported disconnection, a receiver whose senders were all dropped waited forever) was repaired by "
+               "fix commit dfad154 and is recorded as 'fixed:' in known_findings.json; nothing is suppressed.",
     technique="Kani/CBMC symbolic schedule of k atomic channel operations on the real oneshot / mpsc / notification objects with a "
               "shadow-model oracle and counting wakers",
     assumptions=[
@@ -106,12 +110,13 @@ prop(
         "complete wait call G, R, P, P on a condition with an arbitrary enabled mask, with symbolic worker operations in the slots "
         "before G, between G and R, between R and the first poll, between the two polls: wait returns immediately if the trigger "
         "value is true at G, and a poll is never Pending while the trigger value is true (covers the status change between check "
-        "and register, and the change after the waiter parked). The case 'set_enabled_statuses makes the trigger value true while a "
-        "waiter is registered' is a recorded genuine finding (KF-C32-1: set_enabled_statuses does not notify registered waiters, "
-        "contradicting 'including through enabling a status that already changed'): the __known harness is restricted to exactly "
-        "that trigger and fails as recorded, the __rest harnesses assume its negation and pass."),
-    bounds="1 condition, 1 waiter (one wait call), 3 status kinds (mask bits 0, 8, 12) and all 8 masks over them; trigger value: k = 4 "
-           "(quick) / 5 (thorough) worker operations from the default condition; wake-ups: 4 waiter steps + symbolic initial mask + 1 "
+        "and register, the change after the waiter parked, and - with two worker slots - the enabling of a status that changed "
+        "while disabled). A dedicated harness runs exactly that last scenario (status changes while disabled, waiter checks, "
+        "registers, optionally parks, set_enabled_statuses enables the status: the next poll must be Ready): this is where these "
+        "checks found that set_enabled_statuses did not notify registered waiters (KF-C32-1); it was repaired by fix commit 02ad31f "
+        "and all obligations are now asserted without exception."),
+    bounds="1 condition, 1 waiter (one wait call), 3 status kinds (mask bits 0, 8, 12) and all 8 masks over them; trigger value: k = 3 "
+           "(quick) / 4 and 5 (thorough) worker operations from the default condition; wake-ups: 4 waiter steps + symbolic initial mask + 1 "
            "symbolic worker operation in one of the four slots (quick, all four placements) / 2 worker operations in two slots "
            "(thorough: placements 1001, 0101, 1100, 0011); unwind 14 (13-iteration mask loop of DcpsStatusCondition::default()).",
     outside="a free symbolic schedule of worker and waiter steps (measured: 3 free steps, and one worker slot in each of the four gaps, "
@@ -123,14 +128,14 @@ prop(
             "code of status_condition_methods.rs, which are mirrored, not executed; the timeout of the blocking WaitSet::wait "
             "(block_timeout, executor: C42 not applicable); that the woken task is actually re-polled ('parked waiter is woken' is "
             "established as 'notify was called' here plus C34's 'notify wakes the most recent waker'); status kinds other than the "
-            "three chosen (the code treats all 13 kinds uniformly through status_kind_bit); KF-C32-1 itself (reported, not claimed).",
+            "three chosen (the code treats all 13 kinds uniformly through status_kind_bit).",
     level_text="Bounded symbolic model checking (Kani 0.68 / CBMC 6.11) of the real status condition and notification channel; reported "
                "as level 'other' (bounded schedules).",
     level_note="trusted: Kani/CBMC; the harness oracle in harness/incrate/c32_status_condition.rs; stubs in support_cs.rs "
                "(critical_section acquire/release = no-ops; AtomicUsize::fetch_sub never reports the last Arc reference; "
-               "alloc::raw_vec::min_non_zero_cap = faithful copy that asserts Vec growth unreachable after a concrete warm-up). One "
-               "known finding (KF-C32-1, enabling an already changed status does not wake a registered waiter) is printed as "
-               "KNOWN-FINDING on every run; nothing else is suppressed.",
+               "alloc::raw_vec::min_non_zero_cap = faithful copy that asserts Vec growth unreachable after a concrete warm-up). The "
+               "defect found by this check (KF-C32-1: enabling an already changed status did not wake a registered waiter) was repaired "
+               "by fix commit 02ad31f and is recorded as 'fixed:' in known_findings.json; nothing is suppressed.",
     technique="Kani/CBMC symbolic (slot-structured) schedules of status-condition operations against a mirrored WaitSetAsync::wait, "
               "shadow-model oracle",
     assumptions=[
